@@ -16,7 +16,7 @@ MODEL_TARGETS = ["Corr/C10.vo"]
 OBLIGATION_FILES = ["Props/C10.v"]
 ANCHORS = [("ciscoconfparse2/ciscoconfparse2.py", "Diff.__init__"), ("ciscoconfparse2/ciscoconfparse2.py", "Diff.get_diff"),
            ("ciscoconfparse2/ciscoconfparse2.py", "Diff.get_rollback"), ("ciscoconfparse2/cli_script.py", "CliApplication.diff_command"),
-           ("ciscoconfparse2/cli_script.py", "CliApplication.build_command_args_diff")]
+           ("ciscoconfparse2/cli_script.py", "ArgParser.build_command_args_diff")]
 RULE = ("stream neutral: pairs of indentation-style configs built as random trees (depth 0..3) over a pool of realistic lines, new = edit of old "
         "(lines/sections removed, added, moved, siblings reordered), independent, identical, or empty/absent; rendered with varying indentation widths, "
         "internal/trailing whitespace, blank lines, duplicated siblings and re-opened sections; given as list / tuple / str (\\n, \\r\\n, trailing newline) / file / None; "
@@ -274,7 +274,7 @@ def gen_neutral(rng, tier, escalate):
         else:
             old, new = [], gen_tree(rng)
         lo = render_tree(rng, old, _style(rng))
-        ln = render_tree(rng, new, _style(rng)) if r >= 0.86 or r < 0.80 else render_tree(rng, new, _style(rng))
+        ln = render_tree(rng, new, _style(rng))
         syntax = rng.choice(SYNTAXES)
         fo, fn = _as_form(rng, lo), _as_form(rng, ln)
         if not neutral(form_text(fo), form_text(fn), syntax):
@@ -462,8 +462,15 @@ def run_device(case):
 
 
 def lit_device(c, o):
-    return "(%s, %s, %s)" % (common.listlit([_lines_lit(x) for x in o["diffs"]]), common.listlit([_lines_lit(x) for x in o["rollbacks"]]),
-                             _lines_lit(o["self"]))
+    # the equalities are decided by the driver (outputs of the real code compared with each other); Coq only records the verdicts
+    same = lambda xs: all(x == xs[0] for x in xs)
+    return "(%s, %s, %s)" % (common.blit(same(o["diffs"])), common.blit(same(o["rollbacks"])), common.blit(o["self"] == []))
+
+
+def describe_device(c, o):
+    return {"old": c["old"], "new": c["new"], "syntax": c["syntax"],
+            "diff_variants(list,tuple,str,file,[None],mirror-of-mirror,CLI)": o["diffs"],
+            "rollback_variants(list,tuple,str,file,[None],diff(new,old),CLI)": o["rollbacks"], "self_diff": o["self"]}
 
 
 def nontrivial_device(c, o):
@@ -477,9 +484,9 @@ PRE = ("From Coq Require Import NArith ZArith List. Import ListNotations. "
 
 STREAMS = [
     Stream("neutral", gen_neutral, run_neutral, lit_neutral, preamble=PRE, ctype="case10", agree="agree10", show="model10",
-           nontrivial=nontrivial_neutral, describe=describe_neutral, shard=120,
+           nontrivial=nontrivial_neutral, describe=describe_neutral, shard=88,
            rule="option-neutral config pairs x input form x syntax; clauses + model, inside Coq"),
     Stream("device", gen_device, run_device, lit_device, preamble=PRE, ctype="case10dev", agree="agree10dev",
-           nontrivial=nontrivial_device, shard=120,
+           nontrivial=nontrivial_device, describe=describe_device, shard=250,
            rule="option-triggering configs; input forms / CLI / mirror / self-diff equalities on the real code"),
 ]
